@@ -7,6 +7,7 @@
 // plays the same short phrase; register-write logs (hook H1) must be equal and, when the chips of the instance under test
 // have just been re-created, the PCM must be bit-identical.
 #include "vsmf.hpp"
+#include "vconv.hpp"
 #include <limits.h>
 
 // The GENS core reads some emulator state before writing it: fresh heap memory is constant-filled so that two instances
@@ -1013,19 +1014,30 @@ static void stage_rsxx(Case &c)
     int chips0 = r.range(1, 6);
     API("opn2_setNumChips", rc = opn2_setNumChips(d, chips0));
     { ExactBuf b(default_bank()); API("opn2_openBankData", rc = opn2_openBankData(d, b.p, (long)b.n)); }
-    // RSXX image: byte 0 = offset (>= 0x5D) of the data, "rsxx}u" 16 bytes before it, then one SMF-like track without initial delta
-    int start = r.range(0x5D, 0x7F);
-    std::vector<uint8_t> f((size_t)start, 0);
-    f[0] = (uint8_t)start; memcpy(&f[(size_t)start - 0x10], "rsxx}u", 6);
-    SongOpts o1; o1.max_tracks = 1; o1.min_tracks = 1; o1.max_events = 10; o1.sysex_meta = false; o1.tempo_changes = false;
-    Song s1 = gen_song(r, o1);
-    std::vector<uint8_t> t = serialize_track(s1, s1.tracks[0]);
-    size_t skip = 0; while(skip < t.size() && (t[skip] & 0x80)) skip++; skip++;
-    f.insert(f.end(), t.begin() + (long)std::min(skip, t.size()), t.end());
+    // the song that is loaded when the setters are called: an RSXX image locks the set-up; XMI, MUS, RMI and plain SMF songs are
+    // ordinary MIDI music and must not
+    const int kind = g_w.stage == "rsxx" ? 0 : 1 + (int)(c.k % 4);
+    static const char *kname[] = {"RSXX", "XMI", "MUS", "RMI", "SMF"};
+    std::vector<uint8_t> f;
+    if(kind == 0)
+    {   // RSXX image: byte 0 = offset (>= 0x5D) of the data, "rsxx}u" 16 bytes before it, then one SMF-like track without initial delta
+        int start = r.range(0x5D, 0x7F);
+        f.assign((size_t)start, 0);
+        f[0] = (uint8_t)start; memcpy(&f[(size_t)start - 0x10], "rsxx}u", 6);
+        SongOpts o1; o1.max_tracks = 1; o1.min_tracks = 1; o1.max_events = 10; o1.sysex_meta = false; o1.tempo_changes = false;
+        Song s1 = gen_song(r, o1);
+        std::vector<uint8_t> t = serialize_track(s1, s1.tracks[0]);
+        size_t skip = 0; while(skip < t.size() && (t[skip] & 0x80)) skip++; skip++;
+        f.insert(f.end(), t.begin() + (long)std::min(skip, t.size()), t.end());
+    }
+    else if(kind == 1) f = gen_xmi(r, r.range(1, 2), 10).bytes;
+    else if(kind == 2) f = gen_mus(r, 12).bytes;
+    else { SongOpts o1; o1.max_tracks = 2; o1.max_events = 10; Song s1 = gen_song(r, o1); f = serialize_song(s1); if(kind == 3) f = wrap_rmi(f, true, std::vector<uint8_t>()); }
     { ExactBuf in(f); API("opn2_openData", rc = opn2_openData(d, in.p, (unsigned long)in.n)); }
-    if(rc != 0) { c.inconclusive = true; count("rsxx_image_not_accepted"); API("opn2_close", opn2_close(d)); return; }
+    if(rc != 0 && kind == 0) { c.inconclusive = true; count("rsxx_image_not_accepted"); API("opn2_close", opn2_close(d)); return; }
+    if(rc != 0) { c.violation(vfmt("oracle:C18:wellformed-music-rejected:%s", kname[kind]), opn2_errorInfo(d)); API("opn2_close", opn2_close(d)); return; }
     if(r.chance(0.5)) { double nd = 0; API("opn2_tickEvents", nd = opn2_tickEvents(d, 0.05, 1e-4)); (void)nd; }
-    std::string hist = vfmt("chips %d, RSXX song loaded", chips0);
+    std::string hist = vfmt("chips %d, %s song loaded", chips0, kname[kind]);
     // setters with getters, called while the set-up is locked
     int want_chips = r.range(1, 6); if(want_chips == chips0) want_chips = chips0 % 6 + 1;
     int want_model = r.range(1, 5), want_mode = r.range(0, 2);
@@ -1037,6 +1049,14 @@ static void stage_rsxx(Case &c)
     hist += vfmt(", opn2_setNumChips(%d) -> %d", want_chips, r1);
     if(r1 == 0 && g1 != want_chips) c.violation("oracle:C18:getter-after-success:opn2_setNumChips:setup-locked", vfmt("opn2_setNumChips(%d) returned 0 but opn2_getNumChips says %d; %s", want_chips, g1, hist.c_str()));
     if(r1 != 0 && g1 != chips0 && g1 != 2) c.violation("oracle:C18:failed-call-changed:opn2_setNumChips:setup-locked", vfmt("opn2_setNumChips(%d) returned %d and opn2_getNumChips went to %d; %s", want_chips, r1, g1, hist.c_str()));
+    if(kind != 0)
+    {   // ordinary MIDI music does not lock anything: the values are in force at once
+        int obt0 = 0, gm0 = 0; API("opn2_getNumChipsObtained", obt0 = opn2_getNumChipsObtained(d)); API("opn2_getVolumeRangeModel", gm0 = opn2_getVolumeRangeModel(d));
+        if(r1 != 0) c.violation(vfmt("oracle:C18:valid-setter-refused:opn2_setNumChips:%s-loaded", kname[kind]), vfmt("opn2_setNumChips(%d) returned %d; %s", want_chips, r1, hist.c_str()));
+        else if(obt0 != want_chips) c.violation(vfmt("oracle:C18:getter-after-success:opn2_setNumChips:%s-loaded", kname[kind]), vfmt("opn2_setNumChips(%d) returned 0 but %d chips are running; %s", want_chips, obt0, hist.c_str()));
+        if(gm0 != want_model) c.violation(vfmt("oracle:C18:getter-after-success:opn2_setVolumeRangeModel:%s-loaded", kname[kind]), vfmt("set %d, getter says %d; %s", want_model, gm0, hist.c_str()));
+        count("setters_checked_with_ordinary_music_loaded");
+    }
     if(g3 != want_mode) c.violation("oracle:C18:getter-after-success:opn2_setChannelAllocMode:setup-locked", vfmt("set %d, getter says %d; %s", want_mode, g3, hist.c_str()));
     // the next file unlocks the set-up: the values are in force
     SongOpts o2; o2.max_tracks = 2; o2.max_events = 8;
@@ -1052,15 +1072,15 @@ static void stage_rsxx(Case &c)
     if(gm != want_model) c.violation("oracle:C18:setting-lost-across:musicload:volumeModel:after-rsxx", vfmt("after the next file: volume model %d, set %d; %s", gm, want_model, hist.c_str()));
     if(g3b != want_mode) c.violation("oracle:C18:setting-lost-across:musicload:allocMode:after-rsxx", vfmt("after the next file: alloc mode %d, set %d; %s", g3b, want_mode, hist.c_str()));
     c.nontrivial = true;
-    cover(vfmt("rsxx|chips%d->%d|model%d|mode%d", chips0, want_chips, want_model, want_mode));
-    c.sig = "rsxx";
-    c.sample(std::string("{\"stage\":\"rsxx\",\"history\":") + jstr(hist) + "}");
+    cover(vfmt("%s|chips%d->%d|model%d|mode%d", kname[kind], chips0, want_chips, want_model, want_mode));
+    c.sig = kname[kind];
+    c.sample(std::string("{\"stage\":\"") + (kind ? "formats" : "rsxx") + "\",\"history\":" + jstr(hist) + "}");
     API("opn2_close", opn2_close(d));
 }
 
 static void run_case(Case &c)
 {
-    if(g_w.stage == "rsxx") { stage_rsxx(c); return; }
+    if(g_w.stage == "rsxx" || g_w.stage == "formats") { stage_rsxx(c); return; }
     Rng &r = c.rng;
     static const long rates[] = {8000, 11025, 16000, 22050, 32000, 44100, 48000, 53267};
     long rate = r.pick(rates);
